@@ -27,7 +27,12 @@ pub enum Sched {
 /// with a short custom message, sometimes with a LONG localised message (multi-byte characters at varying
 /// alignment around bytes 32…300) — code that stores, clips or formats the message must cope with all.
 pub fn fault(k: io::ErrorKind, salt: usize) -> io::Error {
-    match salt % 4 {
+    match salt % 5 {
+        4 => {
+            // an adapter-style error: the kind the transport reports, wrapping an inner io::Error of ANOTHER kind
+            let inner = io::Error::new(if k == io::ErrorKind::UnexpectedEof { io::ErrorKind::TimedOut } else { io::ErrorKind::UnexpectedEof }, "inner cause");
+            io::Error::new(k, inner)
+        }
         0 => k.into(),
         1 => io::Error::new(k, "link down"),
         2 => {
